@@ -6,6 +6,7 @@ import TracingModel.Props.C05
 import TracingModel.Props.C06
 import TracingModel.Props.C07
 import TracingModel.Props.C08
+import TracingModel.Props.C09
 import TracingModel.Props.C11
 import TracingModel.Props.C19
 import TracingModel.Props.C20
